@@ -142,6 +142,9 @@ def render(prog):
                 out.append(f"        terminate after {k} {unit}")
             for c in d.get("terminate_when", ()):
                 out.append(f"        terminate when {_c(c)}")
+            if name != prog["main"]:
+                for c in d.get("termsim_when", ()):
+                    out.append(f"        terminate simulation when {_c(c)}")
             if d.get("compose") is not None:
                 out.append("    compose:")
                 render_block(d["compose"], name, 2, out)
@@ -205,6 +208,8 @@ def conditions_of(prog):
         if d.get("compose"):
             walk(d["compose"])
         for c in d.get("terminate_when", ()):
+            add(c)
+        for c in d.get("termsim_when", ()):
             add(c)
     top = prog.get("top", {})
     for c in top.get("terminate_when", ()):
@@ -523,6 +528,7 @@ C12_SUBSCENARIOS = {
     "S6": {"compose": [("wait",), ("wait",)]},
     "S7": {"compose": [("do", ["S1"]), ("wait",)]},
     "S8": {"compose": [("dofor", ["S6", "S3"], 3, "steps"), ("waituntil", "c1")]},
+    "S9": {"termsim_when": ["tss"], "terminate_after": (3, "steps"), "compose": None},
 }
 
 
@@ -569,8 +575,8 @@ def c12_modular_programs(tier, start_index=0):
             }
             yield idx, prog
             idx += 1
-    # the known finding: `terminate when` in the setup block of a sub-scenario
-    for body in ([("do", ["S5"])], [("wait",), ("do", ["S5", "S1"])], [("dofor", ["S5"], 2, "steps")]):
+    # `terminate when` / `terminate simulation when` in the setup block of a sub-scenario
+    for body in ([("do", ["S5"])], [("wait",), ("do", ["S5", "S1"])], [("dofor", ["S5"], 2, "steps")], [("do", ["S9"])], [("wait",), ("do", ["S1", "S9"]), ("wait",)], [("dountil", ["S9", "S5"], "c1")]):
         scen = dict(C12_SUBSCENARIOS)
         scen["Main"] = {"terminate_after": (4, "steps"), "terminate_when": ["tw"], "compose": list(body)}
         prog = {
